@@ -204,6 +204,7 @@ SCENARIOS = {
             dict(tie_order=True, times=2),
             dict(linked=True, times=2, n_ads=3), dict(n_ads=4, times=3), dict(n_ads=3, action="mask", times=2),
             dict(n_ads=3, action="lowercase", times=3), dict(linked=True, action="retain"), dict(paired=True, times=2, n_ads=2),
+            dict(paired=True, times=2, n_ads=2, repeat=True, r2_front=True), dict(paired=True, times=3, n_ads=1, repeat=True, r2_front=True),
             dict(n_ads=2, same_family=True), dict(n_ads=3, same_family=True, times=2)],
     "C16": [dict(revcomp=True, cores=2, buffer_size=300, n_reads=16), dict(revcomp=True, cores=3, buffer_size=250, n_reads=18, paired=True),
             dict(revcomp=True, paired=True), dict(revcomp=True, times=2), dict(revcomp=True, error_rate=0.7, overlap=1),
@@ -317,6 +318,9 @@ def _random_config(rng, focus, S):
         want2 = demux == "combi" or p(0.6) or bool(S.get("pairads") or S.get("only_r2"))
         n2 = (len(C["ads1"]) if (f in ("C05", "C03", "C20") and p(0.35)) else rng.choice((1, 2))) if want2 else 0
         C["ads2"] = [fix_linked_render(a) for a in make_adapters(rng, f, n2, 2, False, named, back_only=p(0.6))]
+        if S.get("r2_front"):
+            # 5' adapters on R2: a second copy is only reached in a second round
+            C["ads2"] = [fix_linked_render(a) for a in make_adapters(rng, f, max(1, n2), 2, False, named, front_only=True)]
         if S.get("pairads"):
             C["ads2"] = [fix_linked_render(a) for a in make_adapters(rng, f, len(C["ads1"]), 2, False, named, back_only=p(0.6))]
             if S.get("same_r1") and len(C["ads1"]) >= 2:
